@@ -326,11 +326,13 @@ def onEvent (e : Ev) : M Unit := do
     if o.spanic then tag "rm-model-create-panics"; adv ln g 1 .gp else adv ln g 0 .g5
   | .fe =>
     if o.spanic then adv ln g 0 .d0
-    else if o.serr then
+    else if o.failed then
       adv ln g 0 .m2
       adv ln g 0 .d0
     else
-      -- create succeeded; the store is placed lazily (forceDelete)
+      -- create succeeded (or, `doTake`: the query reported not-found and the placeholder is what gets stored: `ek = 5`);
+      -- the store is placed lazily (forceDelete)
+      if o.serr then tag "rm-model-not-found-placeholder-stored-as-instance"
       adv ln g (o.id + 1) .g6
   | .ret =>
     let mut zeroOk := false
